@@ -21,13 +21,26 @@ def sh(cmd, **kw):
 
 # ------------------------------------------------------------------ special checks
 
+class _Hung:
+    """result of a run that hit its time limit (a call of the code under test that never returns must not hang the check)"""
+    def __init__(self, cmd, limit):
+        self.returncode, self.stdout, self.stderr = 124, "", "time limit of %d s exceeded: %s" % (limit, " ".join(cmd[:3]))
+
+
+def run_limited(cmd, limit, **kw):
+    try:
+        return subprocess.run(cmd, timeout=limit, **kw)
+    except subprocess.TimeoutExpired:
+        return _Hung(cmd, limit)
+
+
 def special_mem(ctx):
     from check_helpers import build_harness
     h = build_harness(ctx)
     if not h:
         return
     n = 3 if ctx.tier == "quick" else 40
-    r = subprocess.run([h, "mem", str(ctx.seed), str(n)], stdout=subprocess.PIPE, stderr=subprocess.PIPE, text=True)
+    r = run_limited([h, "mem", str(ctx.seed), str(n)], 900, stdout=subprocess.PIPE, stderr=subprocess.PIPE, text=True)
     try:
         rep = json.loads(r.stdout)
     except Exception:
@@ -50,7 +63,7 @@ def special_race(ctx):
         return
     n = 2 if ctx.tier == "quick" else 25
     env = dict(os.environ, GORACE="halt_on_error=1 exitcode=66")
-    r = subprocess.run([h, "race", str(ctx.seed), str(n)], stdout=subprocess.PIPE, stderr=subprocess.PIPE, text=True, env=env)
+    r = run_limited([h, "race", str(ctx.seed), str(n)], 1800, stdout=subprocess.PIPE, stderr=subprocess.PIPE, text=True, env=env)
     if r.returncode == 66 or "DATA RACE" in r.stderr:
         m = re.search(r"WARNING: DATA RACE(.*?)(?:={10,}|\Z)", r.stderr, flags=re.S)
         rep = (m.group(0) if m else r.stderr)[:3000]
@@ -123,7 +136,7 @@ def special_link(ctx):
         rt = sh(["go", "build", "-tags", tag, "-o", "minimal_" + tag, "."], cwd=d, env=GOENV)
         if rt.returncode != 0:
             continue
-        rr = sh([os.path.join(d, "minimal_" + tag)])
+        rr = run_limited([os.path.join(d, "minimal_" + tag)], 300, stdout=subprocess.PIPE, stderr=subprocess.STDOUT, text=True)
         ctx.coverage["evaluations"] = ctx.coverage.get("evaluations", 0) + 3
         ctx.samples.append("minimal main built with -tags %s: exit %d" % (tag, rr.returncode))
         if rr.returncode != 0:
@@ -133,7 +146,7 @@ def special_link(ctx):
     if r.returncode != 0:
         ctx.violations.append({"kind": "correspondence-broken", "detail": "minimal main does not build: " + r.stdout[-800:]})
         return
-    r = sh([os.path.join(d, "minimal")])
+    r = run_limited([os.path.join(d, "minimal")], 300, stdout=subprocess.PIPE, stderr=subprocess.STDOUT, text=True)
     ctx.coverage["evaluations"] = ctx.coverage.get("evaluations", 0) + 6
     ctx.coverage["distinct_nontrivial"] = ctx.coverage.get("distinct_nontrivial", 0) + 6
     ctx.samples.append("minimal main importing only the package: exit %d, output %s" % (r.returncode, r.stdout.strip()[:200]))
@@ -148,7 +161,7 @@ def special_link(ctx):
     shutil.copy(os.path.join(d, "go.sum"), os.path.join(dw, "go.sum"))
     rw = sh(["go", "build", "-o", "minimal_wrapped", "."], cwd=dw, env=GOENV)
     if rw.returncode == 0:
-        rr = sh([os.path.join(dw, "minimal_wrapped")])
+        rr = run_limited([os.path.join(dw, "minimal_wrapped")], 300, stdout=subprocess.PIPE, stderr=subprocess.STDOUT, text=True)
         ctx.coverage["evaluations"] = ctx.coverage.get("evaluations", 0) + 6
         ctx.samples.append("main with a wrapped SHA-256 registered by the program: exit %d" % rr.returncode)
         if rr.returncode != 0 or rr.stdout != r.stdout:
@@ -185,7 +198,7 @@ def special_trace(ctx):
     if not h:
         return
     n = 12 if ctx.tier == "quick" else 400
-    r = subprocess.run([h, "trace", str(ctx.seed), str(n)], stdout=subprocess.PIPE, stderr=subprocess.PIPE, text=True)
+    r = run_limited([h, "trace", str(ctx.seed), str(n)], 1800, stdout=subprocess.PIPE, stderr=subprocess.PIPE, text=True)
     shutil.rmtree(inst, ignore_errors=True)
     drv = os.path.join(LEAN, ".lake", "build", "bin", "secpdriver")
     m = subprocess.run([drv], input="TR.alts\n", stdout=subprocess.PIPE, text=True).stdout.strip()
